@@ -2,7 +2,7 @@
    quietly weakened; the lemmas live in Proofs_*.v; the model in Model.v; Gen/C17.v is
    regenerated from /repo on every run. *)
 From Coq Require Import Permutation Sorting.Sorted.
-From Sdns Require Import Common.Base Gen.C17 C17.Model C17.Proofs_arith C17.Proofs_search C17.Proofs_set.
+From Sdns Require Import Common.Base Common.GoList Gen.C17 C17.Model C17.Proofs_arith C17.Proofs_search C17.Proofs_set C17.Proofs_loops.
 Open Scope N_scope.
 
 (* translator ties: the Go functions, as translated from the source now, are the order on
@@ -14,6 +14,22 @@ Print Assumptions u128_lessEq_is_order.
 Theorem ones_is_mask : forall n, go_ones n = if (n <=? 0)%Z then 0 else if (64 <=? n)%Z then two64 - 1 else 2 ^ Z.to_N n - 1.
 Proof. exact gen_ones. Qed.
 Print Assumptions ones_is_mask.
+
+(* translator ties, loops: the binary search of Set.Contains and the running-maximum loop of
+   compile(), as translated from the Go source now (Gen/C17.v, item kind loopfunc), compute what
+   the model's bsearch / run_max compute — for every slice a program can hold (fewer than 2^62
+   spans, so that the midpoint int(uint(i+j)>>1) is exact), with the iteration budget stated *)
+Theorem contains_loop_is_model_search : forall spans k, (Z.of_nat (length spans) < 2 ^ 62)%Z ->
+  go_Set_Contains_loop1_run (S (length spans)) (map to_T spans) k 0%Z (Z.of_nat (length spans)) =
+  (let r := bsearch (fun m => go_u128_lessEq (s_lo (nth m spans dummy_span)) k) (length spans) 0 (length spans) in
+   (GoNext, (map to_T spans, k, Z.of_nat r, Z.of_nat r))).
+Proof. exact gen_contains_search_model. Qed.
+Print Assumptions contains_loop_is_model_search.
+
+Theorem compile_loop_is_running_max : forall l mx,
+  go_compile_loop1_run (map to_T l) mx = (GoNext, (map to_T (run_max mx l), last_max mx l)).
+Proof. exact gen_compile_running_max. Qed.
+Print Assumptions compile_loop_is_running_max.
 
 (* bounds: first and last address of a masked prefix, for every family, length and address *)
 Theorem bounds_exact : forall p, prefix_ok p = true ->
